@@ -37,7 +37,8 @@ import (
 const simBase = "zz_verif/sim/"
 
 var (
-	timeFuncs = map[string]bool{"Now": true, "Since": true, "Until": true, "Sleep": true}
+	timeFuncs = map[string]bool{"Now": true, "Since": true, "Until": true, "Sleep": true,
+		"NewTimer": true, "After": true, "AfterFunc": true, "NewTicker": true, "Tick": true, "Timer": true, "Ticker": true}
 	osNames   = map[string]bool{
 		"ReadFile": true, "WriteFile": true, "Stat": true, "Lstat": true, "Open": true, "OpenFile": true,
 		"Create": true, "CreateTemp": true, "Rename": true, "Remove": true, "RemoveAll": true, "Mkdir": true,
@@ -292,8 +293,10 @@ func (r *rewriter) run() {
 			case "time":
 				if timeFuncs[x.Sel.Name] {
 					timeSel = append(timeSel, x)
-				} else if n := x.Sel.Name; n == "After" || n == "AfterFunc" || n == "NewTimer" || n == "NewTicker" || n == "Tick" {
-					r.rep.TimeUnshimmed = append(r.rep.TimeUnshimmed, r.site(x.Pos())+" time."+n)
+				}
+			case "context":
+				if n := x.Sel.Name; n == "WithTimeout" || n == "WithDeadline" || n == "WithTimeoutCause" || n == "WithDeadlineCause" {
+					r.rep.TimeUnshimmed = append(r.rep.TimeUnshimmed, r.site(x.Pos())+" context."+n+" (deadline on the real clock)")
 				}
 			case "math/rand", "math/rand/v2":
 				if randFuncs[x.Sel.Name] {
@@ -699,6 +702,11 @@ func (r *rewriter) channels() {
 				}
 				clauses = append(clauses, &ast.CaseClause{List: []ast.Expr{&ast.BasicLit{Kind: token.INT, Value: strconv.Itoa(idx)}}, Body: body})
 				idx++
+			}
+			if hasDefault == "false" {
+				// keeps the statement "terminating" where the select was (a select whose clauses all return needs no
+				// return after it; a switch needs a default clause for that)
+				clauses = append(clauses, &ast.CaseClause{Body: []ast.Stmt{&ast.ExprStmt{X: &ast.CallExpr{Fun: ast.NewIdent("panic"), Args: []ast.Expr{siteLit("simrt.Select returned no clause")}}}}})
 			}
 			*sl.p = &ast.SwitchStmt{
 				Init: &ast.AssignStmt{Lhs: []ast.Expr{ast.NewIdent(name)}, Tok: token.DEFINE, Rhs: []ast.Expr{call("Select", args...)}},
